@@ -149,6 +149,42 @@ async def run_case(part, m, name, fault, k, others, explore=False):
         for fname in ('append', 'copy', 'move', 'delete'):
             wrap(fname)
     try:
+        if fault == 'cancel-steps':
+            # no contention, no injected fault: the client goes away k turns of the event loop after the command was sent.  Where the
+            # code never suspends between two mutations (an uncontended asyncio lock does not), nothing can be cut in the middle.
+            a.feed(b'x ' + command_bytes(name) + b'\r\n')
+            for _ in range(k):
+                await asyncio.sleep(0)
+            a.task.cancel()
+            try:
+                await a.finish()
+            except Exception:
+                pass
+            out = a.take()
+            after = await dump(srv)
+            status = 'OK' if b'x OK' in out else 'CUT'
+            part.case(key=repr((name, fault, k)), nontrivial=after != before and status != 'OK', sample=dict(case, status=status))
+            part.trace()
+            part.stat(f'{name}:steps:{status}')
+            moving = info.get('moving', [])
+            for cid in moving:
+                n_in = (cid in after['INBOX']) + after['other'].count(cid)
+                if n_in == 0:
+                    part.violation('monitor', f'{name}: message {cid} is lost: in neither mailbox after the client went away {k} loop turns into the command; before {before}, after {after}',
+                                   case, signature='move-lost')
+                if status == 'OK' and (cid in after['INBOX'] or after['other'].count(cid) != 1):
+                    part.violation('monitor', f'{name}: completed with OK but message {cid} is in {after}', case, signature='move-dest')
+            if 'appending' in info:
+                present = [c for c in info['appending'] if c in after['INBOX']]
+                if status == 'OK' and present != info['appending']:
+                    part.violation('monitor', f'{name}: APPEND answered OK but the mailbox holds {present} of {info["appending"]}', case, signature='append-ok-missing')
+                if status != 'OK' and present and len(present) < len(info['appending']):
+                    part.violation('monitor', f'{name}: the client went away {k} loop turns into an uncontended APPEND of {info["appending"]}: messages {present} are in the mailbox, '
+                                   f'the others are not (the command suspended between two messages)', case, signature='multiappend-partial-uncontended')
+            if 'copying' in info and after['INBOX'] != before['INBOX']:
+                part.violation('monitor', f'{name}: COPY cut after {k} loop turns changed the source: {before["INBOX"]} -> {after["INBOX"]}', case, signature='copy-source')
+            await b.eof()
+            return 0
         sched.enabled = True
         sched.only = {'s0'}
         a.feed(b'x ' + command_bytes(name) + b'\r\n')
@@ -320,6 +356,9 @@ def worker(job):
             for k in range(4):
                 with guarded(part, 'C14 raise', dict(command=name, fault='raise', k=k)):
                     asyncio.run(run_case(part, m, name, 'raise', k, {}))
+            for k in range(0, 14):
+                with guarded(part, 'C14 cancel-steps', dict(command=name, fault='cancel-steps', k=k)):
+                    asyncio.run(run_case(part, m, name, 'cancel-steps', k, {}))
             for _ in range(nrandom):
                 k = r.randint(0, max(0, nparks))
                 others = {}
